@@ -357,40 +357,91 @@ def audit_failures(lines):
     return out
 
 
-def model_listings(ctx, docs):
-    """Json/AuditRun.v `run_audit` on every document (one coqc per processor)"""
-    okb, logb = ctx.build(["theories/Json/AuditRun.vo"])
-    if not okb:
-        raise RuntimeError("AuditRun does not build: " + logb[-800:])
-    pre = "From Ink.Json Require Import StdLoad AuditRun.\n"
-    exprs = [f"run_audit {vlib.json2coq(d)}" for d in docs]
-    # interleave so that every shard gets documents of every size
-    order = sorted(range(len(docs)), key=lambda i: -len(exprs[i]))
-    nsh = max(1, min(vlib.NPROC, len(docs)))
+P61 = 2305843009213693951
+DIGEST_PRE = """From Ink.Base Require Import Text.
+From Ink.Json Require Import StdLoad AuditRun.
+Definition c19d_p : N := 2305843009213693951.
+Fixpoint c19d_hashes (l : text) (h : N) : list N :=
+  match l with
+  | [] => [h]
+  | c :: r => if N.eqb c 10 then h :: c19d_hashes r 7 else c19d_hashes r ((h * 1000003 + c + 1) mod c19d_p)
+  end.
+Fixpoint c19d_split (l acc : text) : text * text :=
+  match l with
+  | [] => (rev acc, [])
+  | c :: r => if N.eqb c 10 then (rev acc, r) else c19d_split r (c :: acc)
+  end.
+Definition c19d_digest (t : text) : text :=
+  let (h, r) := c19d_split t [] in
+  match r with [] => h | _ => h ++ [10] ++ join_with [10] (map show_N (c19d_hashes r 7)) end.
+"""
+
+
+def line_hash(line):
+    h = 7
+    for ch in line:
+        h = (h * 1000003 + ord(ch) + 1) % P61
+    return h
+
+
+def _sharded(ctx, pre, exprs, filler, name):
+    """one coqc per processor, every shard with documents of every size"""
+    order = sorted(range(len(exprs)), key=lambda i: -len(exprs[i]))
+    nsh = max(1, min(max(2, vlib.NPROC // 2), len(exprs)))
     shards = [order[k::nsh] for k in range(nsh)]
-    flat = [i for sh in shards for i in sh]
     size = max(len(sh) for sh in shards)
     padded = []
     for sh in shards:
-        padded += [exprs[i] for i in sh] + ["run_audit JNull"] * (size - len(sh))
-    outs = vlib.coq_eval_sharded(pre, padded, shard=size, name="c19docs", timeout=1200)
-    res = [None] * len(docs)
+        padded += [exprs[i] for i in sh] + [filler] * (size - len(sh))
+    outs = vlib.coq_eval_sharded(pre, padded, shard=size, name=name, timeout=1200)
+    res = [None] * len(exprs)
     for k, sh in enumerate(shards):
         for j, i in enumerate(sh):
             res[i] = outs[k * size + j]
     return res
 
 
-def check_audits(items, builds, model):
+def model_listings(ctx, docs, full=False):
+    """Json/AuditRun.v `run_audit` on every document.  full=False: the first line ("load=.. wf_tree=..")
+    and one hash per audit line (printing whole listings is what costs the time); full=True: the text.
+    -> list of dict(head, hashes | lines)"""
+    if not docs:
+        return []
+    okb, logb = ctx.build(["theories/Json/AuditRun.vo"])
+    if not okb:
+        raise RuntimeError("AuditRun does not build: " + logb[-800:])
+    if full:
+        outs = _sharded(ctx, "From Ink.Json Require Import StdLoad AuditRun.\n",
+                        [f"run_audit {vlib.json2coq(d)}" for d in docs], "run_audit JNull", "c19docsf")
+        return [dict(head=o.split("\n")[0], lines=o.split("\n")[1:]) for o in outs]
+    outs = _sharded(ctx, DIGEST_PRE, [f"c19d_digest (run_audit {vlib.json2coq(d)})" for d in docs],
+                    "c19d_digest (run_audit JNull)", "c19docs")
+    return [dict(head=o.split("\n")[0], hashes=[int(x) for x in o.split("\n")[1:]]) for o in outs]
+
+
+def check_audits(items, builds, model, full_of=None):
     """items: [(id, doc, hazards, features)], builds: {name: [inkdrive result per item]},
-    model: [model text per item] or None.  -> dict(fails, mismatches, outside, nobj, loaded, rejected)"""
+    model: [dict(head, hashes) | None per item] or None; full_of(n) -> the model's listing of item n as
+    text lines (evaluated only for documents that disagree).
+    -> dict(fails, mismatches, outside, nobj, loaded, rejected, ...)"""
     out = dict(fails=[], mismatches=[], outside={}, nobj=0, loaded=0, rejected=0, wf_true=0, model_docs=0,
                wf_vs_hazards=[])
+    panic_hash = line_hash("!panic")
+    fulls = {}
+
+    def full(n):
+        if n not in fulls:
+            fulls[n] = None
+            if full_of is not None and len(fulls) <= 4:
+                try:
+                    fulls[n] = full_of(n)
+                except Exception:
+                    pass
+        return fulls[n]
     for n, (cid, doc, hz, ft) in enumerate(items):
-        mhead, mlines = None, None
+        mhead, mh = None, None
         if model is not None and model[n] is not None:
-            ml = model[n].split("\n")
-            mhead, mlines = ml[0], ml[1:]
+            mhead, mh = model[n]["head"], model[n]["hashes"]
             out["model_docs"] += 1
             if "wf_tree=true" in mhead:
                 out["wf_true"] += 1
@@ -405,31 +456,42 @@ def check_audits(items, builds, model):
                 out["rejected"] += 1
                 continue
             out["loaded"] += 1
+            mh_b = mh
             if mhead is not None and not mhead.startswith("load=ok"):
                 out["mismatches"].append(dict(story=cid, build=bname, impl="load=ok", model=mhead, doc=doc))
-                mlines_b = None
-            else:
-                mlines_b = mlines
+                mh_b = None
             if not isinstance(a, list):
                 # the hook itself panics (Object::get_path on an object its parent cannot find)
-                predicted = mlines_b is not None and any(l.startswith("!panic") for l in mlines_b)
-                if hz and (predicted or mlines_b is None):
+                predicted = mh_b is not None and panic_hash in mh_b
+                if hz and (predicted or mh_b is None):
                     out["outside"].setdefault("+".join(sorted(hz)) + ":audit-panics", dict(story=cid, doc=doc))
                 else:
                     out["fails"].append(dict(kind="path-of-object-cannot-be-computed", story=cid, build=bname,
                                              hazards=sorted(hz), doc=doc))
                 continue
             ilines = [c19_tree.canon_impl_line(l) for l in a]
+            ih = [line_hash(l) for l in ilines]
             out["nobj"] += len(ilines)
-            if mlines_b is not None and ilines != mlines_b:
-                k = next((k for k, (x, y) in enumerate(zip(ilines, mlines_b)) if x != y), min(len(ilines), len(mlines_b)))
+            if mh_b is not None and ih != mh_b:
+                k = next((k for k, (x, y) in enumerate(zip(ih, mh_b)) if x != y), min(len(ih), len(mh_b)))
+                fl = full(n)
+                ml = fl["lines"] if fl else None
                 out["mismatches"].append(dict(story=cid, build=bname, line=k,
                                               impl=ilines[k] if k < len(ilines) else "%d objects" % len(ilines),
-                                              model=mlines_b[k] if k < len(mlines_b) else "%d objects" % len(mlines_b),
+                                              model=(ml[k] if ml is not None and k < len(ml) else
+                                                     "%d objects%s" % (len(mh_b), "" if ml is not None else " (line differs)")),
                                               doc=doc))
             for k, kind in audit_failures(a):
-                model_ok = mlines_b is not None and k < len(mlines_b) and not audit_failures([mlines_b[k]])
-                if not hz or model_ok:
+                if not hz:
+                    model_ok = True
+                elif mh_b is None:
+                    model_ok = False                 # no model answer: the documented class
+                elif k < len(mh_b) and mh_b[k] == ih[k]:
+                    model_ok = False                 # the model predicts this very line
+                else:
+                    fl = full(n)
+                    model_ok = bool(fl) and k < len(fl["lines"]) and not audit_failures([fl["lines"][k]])
+                if model_ok:
                     out["fails"].append(dict(kind=kind, story=cid, build=bname, line=a[k], hazards=sorted(hz),
                                              features=sorted(ft), doc=doc))
                 else:
@@ -693,7 +755,8 @@ def run_docs(ctx, exe, exe_stream=None):
     except Exception as e:
         model_err = str(e)[-400:]
     timing["model_listing"] = round(time.time() - t0, 1)
-    au = check_audits(full, first, model)
+    au = check_audits(full, first, model,
+                      full_of=lambda n: model_listings(ctx, [full[n][1]], full=True)[0])
     mismatches = au["mismatches"]
     if model_err:
         mismatches.append(dict(story="(all)", impl="", model="model-does-not-evaluate: " + model_err))
@@ -736,9 +799,9 @@ def run_docs(ctx, exe, exe_stream=None):
     eng = dict(compared=0, agree=0, skipped=0)
     try:
         import engine
-        lim = 30 if quick else 400
+        lim = 24 if quick else 400
         sel = eng_cases[:lim]
-        rs = engine.compare([{k: v for k, v in c.items() if k != "doc"} for c in sel], exe, shard=max(3, len(sel) // 12 + 1))
+        rs = engine.compare([{k: v for k, v in c.items() if k != "doc"} for c in sel], exe, shard=max(4, len(sel) // 12 + 1))
         for c, r in zip(sel, rs):
             if r["status"] == "agree":
                 eng["agree"] += 1; eng["compared"] += 1
